@@ -31,8 +31,14 @@ Inductive nvname : Type :=
 | NV_link (n : bytes) (off : Z)   (* "<Name>-<%#x offset>.bin" *)
 | NV_inv (off : Z).               (* "<%#x offset>.nvar" *)
 
-(* a path below the directory of the raw file that holds the store: GUID directories, then the file *)
-Definition nvpath := (list bytes * nvname)%type.
+(* a directory component: the GUID of a variable, or - for the entries of a nested store - the offset of
+   the variable that holds the store ("%#x"), so that sibling variables with one GUID do not share it *)
+Inductive nvdir : Type :=
+| ND_guid (g : bytes)
+| ND_off (o : Z).
+
+(* a path below the directory of the raw file that holds the store: directories, then the file *)
+Definition nvpath := (list nvdir * nvname)%type.
 Definition nvfs := list (nvpath * bytes).
 
 Definition nvname_eqb (a b : nvname) : bool :=
@@ -42,10 +48,16 @@ Definition nvname_eqb (a b : nvname) : bool :=
   | NV_inv i, NV_inv j => i =? j
   | _, _ => false
   end.
-Fixpoint dirs_eqb (a b : list bytes) : bool :=
+Definition nvdir_eqb (a b : nvdir) : bool :=
+  match a, b with
+  | ND_guid x, ND_guid y => bytes_eqb x y
+  | ND_off x, ND_off y => x =? y
+  | _, _ => false
+  end.
+Fixpoint dirs_eqb (a b : list nvdir) : bool :=
   match a, b with
   | [], [] => true
-  | x :: a', y :: b' => bytes_eqb x y && dirs_eqb a' b'
+  | x :: a', y :: b' => nvdir_eqb x y && dirs_eqb a' b'
   | _, _ => false
   end.
 Definition nvpath_eqb (a b : nvpath) : bool := dirs_eqb (fst a) (fst b) && nvname_eqb (snd a) (snd b).
@@ -69,8 +81,10 @@ Definition render_nvname (n : nvname) : bytes :=
   | NV_link s off => s ++ [45] ++ tx_0x ++ render_num 16 off ++ t_dotbin
   | NV_inv off => tx_0x ++ render_num 16 off ++ t_dotnvar
   end.
-Fixpoint render_nvdirs (d : list bytes) : bytes :=
-  match d with [] => [] | g :: r => guid_string g ++ [47] ++ render_nvdirs r end.
+Definition render_nvdir (c : nvdir) : bytes :=
+  match c with ND_guid g => guid_string g | ND_off o => tx_0x ++ render_num 16 o end.
+Fixpoint render_nvdirs (d : list nvdir) : bytes :=
+  match d with [] => [] | c :: r => render_nvdir c ++ [47] ++ render_nvdirs r end.
 Definition render_nvpath (p : nvpath) : bytes := render_nvdirs (fst p) ++ render_nvname (snd p).
 
 (* what survives encoding/json *)
@@ -122,23 +136,24 @@ Definition nv_own_name (v : nvar) : nvname :=
     (if v_type v =? nvar_type_link then NV_link (v_name v) (v_off v) else NV_name (v_name v))
   else NV_inv (v_off v).
 
-Fixpoint nv_extract (d : nat) (dirs : list bytes) (s : nstore) {struct d} : outcome nvfs :=
+Fixpoint nv_extract (d : nat) (dirs : list nvdir) (s : nstore) {struct d} : outcome nvfs :=
   match d with
   | O => Fuel
   | S d' =>
     let one (v : nvar) : outcome nvfs :=
-      let dv := dirs ++ [v_guid v] in
+      let dv := dirs ++ [ND_guid (v_guid v)] in
+      let dk := dv ++ [ND_off (v_off v)] in
       if is_valid v then
         match v_sub v with
         | None =>
           do c <- of_opt 601 (slice (v_dataoff v) (zlen (v_buf v)) (v_buf v));
           Ok [((dv, nv_own_name v), c)]
-        | Some ns => nv_extract d' dv ns
+        | Some ns => nv_extract d' dk ns
         end
       else
         (* the whole entry; a nested store (a data-only entry nobody links to may hold one) is still
            visited *)
-        do kids <- (match v_sub v with None => Ok [] | Some ns => nv_extract d' dv ns end);
+        do kids <- (match v_sub v with None => Ok [] | Some ns => nv_extract d' dk ns end);
         Ok (((dv, nv_own_name v), v_buf v) :: kids) in
     do fs <- map_out one (s_entries s);
     Ok (concat fs)
@@ -146,12 +161,13 @@ Fixpoint nv_extract (d : nat) (dirs : list bytes) (s : nstore) {struct d} : outc
 
 (* ---------- ParseDir ---------- *)
 
-Fixpoint nv_reload (d : nat) (f : nvfs) (dirs : list bytes) (s : nstore) {struct d} : outcome nstore :=
+Fixpoint nv_reload (d : nat) (f : nvfs) (dirs : list nvdir) (s : nstore) {struct d} : outcome nstore :=
   match d with
   | O => Fuel
   | S d' =>
     let one (v : nvar) : outcome nvar :=
-      let dv := dirs ++ [v_guid v] in
+      let dv := dirs ++ [ND_guid (v_guid v)] in
+      let dk := dv ++ [ND_off (v_off v)] in
       (* ExtractPath is empty for a valid entry with a nested store *)
       let has_file := negb (is_valid v) || (match v_sub v with None => true | Some _ => false end) in
       do file <- (if has_file && sv_nv_path then
@@ -162,7 +178,7 @@ Fixpoint nv_reload (d : nat) (f : nvfs) (dirs : list bytes) (s : nstore) {struct
                   else Ok []);
       do sub' <- (match v_sub v with
                   | None => Ok None
-                  | Some ns => do ns' <- nv_reload d' f dv ns; Ok (Some ns')
+                  | Some ns => do ns' <- nv_reload d' f dk ns; Ok (Some ns')
                   end);
       (* the test of ParseDir is on the reloaded Type field *)
       let valid' := is_valid_type (if sv_nv_type then v_type v else 0) in
@@ -181,18 +197,19 @@ Fixpoint nv_reload (d : nat) (f : nvfs) (dirs : list bytes) (s : nstore) {struct
    have the same GUID and the same kind of name: valid non-link entries the same Name, link entries the
    same Name and Offset, other entries the same Offset; a variable holding a nested store lends its GUID
    directory to the entries of that store *)
-Fixpoint nv_all_paths (d : nat) (dirs : list bytes) (s : nstore) {struct d} : list nvpath :=
+Fixpoint nv_all_paths (d : nat) (dirs : list nvdir) (s : nstore) {struct d} : list nvpath :=
   match d with
   | O => []
   | S d' =>
     concat (map (fun v =>
-      let dv := dirs ++ [v_guid v] in
+      let dv := dirs ++ [ND_guid (v_guid v)] in
+      let dk := dv ++ [ND_off (v_off v)] in
       if is_valid v then
         match v_sub v with
         | None => [(dv, nv_own_name v)]
-        | Some ns => nv_all_paths d' dv ns
+        | Some ns => nv_all_paths d' dk ns
         end
-      else (dv, nv_own_name v) :: (match v_sub v with None => [] | Some ns => nv_all_paths d' dv ns end))
+      else (dv, nv_own_name v) :: (match v_sub v with None => [] | Some ns => nv_all_paths d' dk ns end))
       (s_entries s))
   end.
 
